@@ -67,6 +67,9 @@ def check_C11(run):
     # in the rules family: their fingerprints for pairs with a pointer asymmetry are re-emitted under C11
     fam_rules.pipeline(run, "C11")
     summ, obs = pipeline(run)
+    # "with the flag set at CLI / converter / method level": its effect per method and generated helper
+    import fam_text
+    fam_text.witness(run)
     kinds = set()
     n = 0
     for r in read_ndjson(obs):
